@@ -265,8 +265,49 @@ def parse_twice(k):
         return ok and a == b
 
 
+def grid_rows(tier):
+    from lib import grid
+
+    ids = grid.select(tier)
+    size = 120 if tier == "quick" else 300
+    return [ids[i:i + size] for i in range(0, len(ids), size)]
+
+
+def frame_grid(quick, w1, w2, chunk, i):
+    """generated shape (lib/grid.py) number i of the chunk: emitter w1 leaves the description unchanged - also when it raises -
+    and emitter w2 applied to the same object afterwards gives what it gives on a fresh copy"""
+    i = realize(i)
+    with untraced():
+        rid = grid_rows("quick" if quick else "thorough")[chunk][i]
+        ir = mk_ir(rid)
+        snap = deepcopy(ir)
+        try:
+            _emit(ir, w1)
+        except Exception:
+            return _ir_same(ir, snap)
+        if not _ir_same(ir, snap):
+            return False
+        try:
+            want = _emit(deepcopy(snap), w2)
+        except Exception:
+            return True  # w2 cannot render this description at all (known findings of the round-trip family); nothing to compare
+        try:
+            got = _emit(ir, w2)
+        except Exception:
+            return False
+        return _eq(got, want) and _ir_same(ir, snap)
+
+
 def obligations(tier, seed):
     obs = []
+    for w1 in range(5):
+        for c, ids in enumerate(grid_rows(tier)):
+            w2 = (w1 + 1 + c) % 4
+            obs.append(Ob(
+                name="frame_grid_%s_%d" % (("class", "function", "argparse", "docstring", "classcall")[w1], c), params=[("i", "int")],
+                pre=["0 <= i < %d" % len(ids)], body="H.frame_grid(%r, %d, %d, %d, i)" % (tier == "quick", w1, w2, c), witness=(0,), kind="F",
+                bounds="generated shapes %s..%s (%d rows of lib/grid.py, table-indexed, content concrete); emitter %d then emitter %d on the "
+                "same object" % (ids[0], ids[-1], len(ids), w1, w2), timeout=300 if tier == "quick" else 1200, path_timeout=100, funcs=FUNCS))
     for w in range(4):
         for i in range(6):
             params, pre = [("p", "str"), ("d", "int")], ["1 <= len(p) <= 2", "all(c in %r for c in p)" % PROSE_A,
